@@ -54,6 +54,8 @@ type Result struct {
 	Counters map[string]int `json:"counters,omitempty"` // summed into the evidence
 	Sample   interface{}    `json:"sample,omitempty"`   // written into evidence samples (first few)
 	Trace    []string       `json:"trace,omitempty"`    // abbreviated trace for violations
+	// ReplayCase, if set, replaces the case in the replay file (a single scenario instead of the whole batch).
+	ReplayCase *Case `json:"replay_case,omitempty"`
 	// Extra violations found in the same case (each with its own signature).
 	More []Finding `json:"more,omitempty"`
 }
@@ -448,6 +450,10 @@ func Run(p *Prop, tier string, seed int64, root, self, raceSelf string) int {
 			return
 		}
 		path := filepath.Join(replayDir, fmt.Sprintf("%s-%d.json", p.ID, nviol))
+		if r.ReplayCase != nil {
+			c = *r.ReplayCase
+			c.Idx = 0
+		}
 		rep := map[string]interface{}{"property": p.ID, "tier": tier, "seed": seed, "case": c, "signature": sig, "detail": detail, "trace": r.Trace, "race": p.Race}
 		b, _ := json.MarshalIndent(rep, "", " ")
 		ioutil.WriteFile(path, b, 0o644)
